@@ -430,6 +430,63 @@ def b_explicit_defaults(m, xs, doc):
     n, labels = connected_components(m, directed=True, connection="weak")
     return sorted(xs, reverse=False), labels, np.mean(xs, axis=None), doc.model_dump_json(exclude_none=False), "a:b".split(":", maxsplit=-1)
 
+def a_guarded_loop(xs, f):
+    for x in xs:
+        if f(x):
+            raise ValueError(x)
+    return xs
+def b_guarded_loop(xs, f):
+    if not xs:
+        return xs
+    for x in xs:
+        if f(x):
+            raise ValueError(x)
+    return xs
+
+def a_isinstance_tuple(v):
+    if isinstance(v, (list, tuple)):
+        return len(v)
+    return 1
+def b_isinstance_tuple(v):
+    if isinstance(v, list) or isinstance(v, tuple):
+        return len(v)
+    else:
+        return 1
+
+def a_for_else(xs, enc):
+    for x in xs:
+        v = enc(x)
+        if v is not None:
+            return v
+    return None
+def b_for_else(xs, enc):
+    for x in xs:
+        v = enc(x)
+        if v is not None:
+            return v
+    else:
+        return None
+
+def a_range_spelled(n, d):
+    return [i for i in range(n)], d.get("k")
+def b_range_spelled(n, d):
+    return [i for i in range(0, n, 1)], d.get("k", None)
+
+def a_fancy_zip(M, rows, cols):
+    for r, c in zip(rows, cols):
+        if M[r, c] > 0:
+            yield r, c
+def b_fancy_zip(M, rows, cols):
+    vals = M[rows, cols]
+    for r, c, v in zip(rows, cols, vals):
+        if v > 0:
+            yield r, c
+
+def a_helper_kw(x, y):
+    return a_helper(x, y)
+def b_helper_kw(x, y):
+    return a_helper(x=x, y=y)
+
 def a_neq_option(m, xs):
     from scipy.sparse.csgraph import connected_components
     n, labels = connected_components(m)
@@ -449,7 +506,7 @@ EQUAL = ["helper", "raise_in_helper", "ite", "single_exit", "loop_append", "dict
          "partial", "format", "match", "augadd", "display_append", "dict_update", "slice", "gen_helper", "takewhile", "table",
          "record_methods", "any_display", "yield_chain", "unroll", "or_none", "demorgan", "map_fused", "cond_list",
          "search_loop", "comp_display", "star_display", "map_display", "dict_values", "dict_setitem", "empty_appends", "extend_comp",
-         "multi_fill", "local_gen", "zip_display", "search_preset", "cond_record", "local_call", "explicit_defaults"]
+         "multi_fill", "local_gen", "zip_display", "search_preset", "cond_record", "local_call", "explicit_defaults", "guarded_loop", "isinstance_tuple", "for_else", "range_spelled", "fancy_zip", "helper_kw"]
 DIFFERENT = ["neq_filter", "neq_later_mutation", "neq_order", "neq_search_default", "neq_option"]
 
 
